@@ -64,6 +64,9 @@ def specs():
     for n in ("pc_const", "ar2m"):
         z = zoo.by_name(n)
         out.append(Spec(n, z.source(), z.float_params(), {}, dict(linear=True), z.tvars, z.tshocks, z.mvars))
+    # unit root with drift: the steady state has non-zero CHANGES that depend on the parameters (non-flat)
+    out.append(Spec("drift", "!transition-variables\n    l, g\n!transition-shocks\n    el, eg\n!parameters\n    rho, c\n!transition-equations\n"
+                    "    l = l[-1] + g + el;\n    g = rho*g[-1] + c + eg;\n", dict(rho=0.5, c=0.1), {}, dict(linear=True), ("l", "g"), ("el", "eg")))
     for n in ("stat_nl", "rbc_flat"):
         s = c05.by_name(n)
         out.append(Spec(n, s.source(), s.params, s.init, dict(linear=s.linear, flat=s.flat), s.tvars, s.shocks, (), s.logvars,
@@ -248,7 +251,15 @@ def obs_params(m, reg):
                     out.append(S.sym(reg[float(x)], float(x)))
                 else:
                     out.append(float(x))
-    return {"parameters": out, "num_variants": [str(m.num_variants)]}
+    # stored steady state (levels and changes of variables), concrete numbers computed by the real code on each side
+    st = []
+    for v in m._variants:
+        for q in m._invariant.quantities:
+            if "VARIABLE" in str(q.kind):
+                for d in (v.levels, v.changes):
+                    x = d.get(q.id)
+                    st.append("None" if x is None else (x if isinstance(x, S.SReal) else float(x)))
+    return {"parameters": out, "num_variants": [str(m.num_variants)], "steady_values": st}
 
 
 def obs_sim(ir, spec, m, deviation):
@@ -396,8 +407,14 @@ def compare(run, got, want, side):
                 if not (isinstance(tx, str) and isinstance(ty, str) and tx == ty):
                     return "sat", f"{side}: observable {label}[{k}]: {str(tx)[:80]} vs oracle {str(ty)[:80]}", nontrivial
                 continue
-            if not z3.is_rational_value(tx) or not z3.is_rational_value(ty):
-                nontrivial = True
+            if z3.is_rational_value(tx) and z3.is_rational_value(ty):
+                # two numbers computed by the real code on the two sides: equal up to float noise
+                fa = float(tx.numerator_as_long()) / float(tx.denominator_as_long())
+                fb = float(ty.numerator_as_long()) / float(ty.denominator_as_long())
+                if abs(fa - fb) > 1e-9 * max(1.0, abs(fa), abs(fb)):
+                    return "sat", f"{side}: observable {label}[{k}]: {fa!r} vs oracle {fb!r}", nontrivial
+                continue
+            nontrivial = True
             eqs.append((k, tx, ty))
         if eqs:
             claim = z3.And(*[tx == ty for _, tx, ty in eqs])
@@ -815,7 +832,7 @@ def main(run):
                               "(executed concretely as the history)", "simultaneous._invariants.Invariant.{copy,__getstate__,__setstate__,_populate_derived_attributes,to_portable,from_portable}",
                               "simultaneous._variants.Variant.copy", "equators.plain.PlainEquator.{__getstate__,__setstate__,_create_function,eval} (lifted)",
                               "fords.simulators.simulate_frame (lifted)", "steadiers.evaluators / simultaneous._steady (lifted, solver stubbed)", "fords.kalmans (lifted)"]
-    run.bounds["structures"] = ("models pc_const, ar2m (linear, measurement), stat_nl, rbc_flat (non-linear, log-variables); duplicates by copy, pickle, to_pickle_bytes, dill, "
+    run.bounds["structures"] = ("models pc_const, ar2m (linear, measurement), drift (unit root, parameter-dependent steady change), stat_nl, rbc_flat (non-linear, log-variables); duplicates by copy, pickle, to_pickle_bytes, dill, "
                                 "copy.deepcopy, portable via JSON; duplicate taken before or after steady+solve; histories of <=1 operation for every duplicate kind, <=2 for "
                                 "copy (quick) and copy/pickle/portable (thorough), 3 for copy on two models (thorough), each operation addressed to either side, from "
                                 "{assign one, assign all, assign per variant, assign level, steady, solve, alter_num_variants(2), alter_num_variants(1), change_logly / override_tolerance}; variants n<=3")
@@ -864,6 +881,7 @@ def _concrete_obs(ir, spec, m):
     try:
         lv = m.get_steady_levels()
         out["steady"] = {k: np.atleast_1d(np.array(v, dtype=float)) for k, v in lv.items()}
+        out["steady_changes"] = {k: np.atleast_1d(np.array(v, dtype=float)) for k, v in m.get_steady_changes().items()}
     except Exception as exc:
         out["steady"] = f"raises:{type(exc).__name__}"
     start = ir.qq(2020, 1)
